@@ -798,7 +798,7 @@ func TestVerifC15(t *testing.T) {
 			{kind: "t", delta: 1500}, {kind: "t", delta: 3001},
 			{kind: "lc", key: "k", inst: 1, applied: true, how: "e"},
 		}
-		maxLen := vfutil.Scale(3, 5)
+		maxLen := vfutil.Scale(4, 5)
 		var rec func(prefix []vfC15Ev)
 		rec = func(prefix []vfC15Ev) {
 			if len(prefix) > 0 {
@@ -816,12 +816,12 @@ func TestVerifC15(t *testing.T) {
 	}
 
 	// generated event lists
-	for i := 0; i < vfutil.Scale(1500, 60000); i++ {
+	for i := 0; i < vfutil.Scale(5000, 60000); i++ {
 		rn.runTrace(vfC15Gen(r), "gen")
 	}
 
 	// the double's Lua interpreter vs Lean evalLua on the generated AST
-	for i := 0; i < vfutil.Scale(3000, 100000); i++ {
+	for i := 0; i < vfutil.Scale(6000, 100000); i++ {
 		rn.luaOp(r)
 	}
 }
